@@ -309,7 +309,7 @@ def _length(spec):
     cs, d = int(spec["cs"]), int(spec["d"])
     if abs(d) > 1:
         d = (abs(d) % cs) * (1 if d > 0 else -1)
-    return max(0, int(spec["k"]) * cs + d)
+    return abs(int(spec["k"]) * cs + d)
 
 
 def _run_bytes(spec, rec):
